@@ -139,11 +139,8 @@ func (g *gen) name() string {
 	if g.r.chance(3, 4) {
 		return pick(g.r, plainNames)
 	}
-	n := pick(g.r, oddNames)
-	if n == "" {
-		return "e"
-	}
-	return n
+	// (the empty name is a name: written "")
+	return pick(g.r, oddNames)
 }
 
 func quoteIdentAlways(n string) string {
@@ -152,7 +149,7 @@ func quoteIdentAlways(n string) string {
 
 // ident spells one identifier: quoted when it must be, otherwise at random.
 func (g *gen) identSpelling(n string) string {
-	if influxql.IdentNeedsQuotes(n) || (!g.plain && g.r.chance(1, 4)) {
+	if n == "" || influxql.IdentNeedsQuotes(n) || (!g.plain && g.r.chance(1, 4)) {
 		q := quoteIdentAlways(n)
 		if !g.plain && g.r.chance(1, 3) { // the other quote may be written escaped as well: same value
 			q = strings.Replace(q, "'", `\'`, -1)
@@ -750,10 +747,14 @@ func (g *gen) optCount(kw string) int {
 	g.kw(kw)
 	countSeq++
 	v := 1 + (countSeq*7+g.r.intn(5))%997
-	if g.r.chance(1, 20) {
-		v = math.MaxInt32
+	if g.r.chance(1, 10) { // the edges: the counts are ints, 64 bits wide here
+		v = pick(g.r, []int{math.MaxInt32, math.MaxInt32 + 1, math.MaxInt64, math.MaxInt64 - 1, 1 << 53, 0})
 	}
-	g.emit(strconv.Itoa(v))
+	s := strconv.Itoa(v)
+	if !g.plain && g.r.chance(1, 8) {
+		s = "00" + s // leading zeros do not change the value
+	}
+	g.emit(s)
 	return v
 }
 
